@@ -2,7 +2,7 @@
    - the extracted key table is (Leibniz) the documented one;
    - lookup in the extended table, longest-prefix search (detect_from);
    - "stage" lemmas: when detect_mouse / detect_focus / detect_paste say None;
-   - the UTF-8 scalar round trip C08_scalar. *)
+   - the UTF-8 scalar round trip decode_encode_scalar. *)
 From Coq Require Import NArith ZArith List Bool Lia Arith ZifyN ZifyNat ZifyBool.
 Import ListNotations.
 From BT Require Import Base.Bytes Model.Utf8 Model.Keys Model.Mouse Model.Decoder Model.Reader RefTable
@@ -339,7 +339,7 @@ Proof. unfold cont, in_range. lia. Qed.
 Lemma mod64_enc x : (128 + x mod 64) mod 64 = x mod 64.
 Proof. lia. Qed.
 
-Theorem C08_scalar r rest : is_scalar r = true ->
+Theorem decode_encode_scalar r rest : is_scalar r = true ->
   decode_rune (utf8_encode r ++ rest) = (r, length (utf8_encode r)).
 Proof.
   intros Hs. unfold is_scalar in Hs. unfold utf8_encode.
